@@ -188,7 +188,7 @@ class Verifier:
 
     def exec_stmts(self, src, vars_):
         tree = ast.parse(src)
-        env = Env(vars=vars_, glob=self.interp.builtins)
+        env = Env(vars=vars_, parent=Env(vars=dict(self.base_ns), glob=self.interp.builtins), glob=self.interp.builtins)
         self.interp.exec_block(tree.body, env)
 
     # ------------------------------------------------------------------ modular call substitution
@@ -382,8 +382,18 @@ class Verifier:
         inputs = None
         detail = None
         try:
-            if cx.solver.check() == z3.sat:
-                m = cx.solver.model()
+            got = False
+            if cx.soft:
+                cx.solver.push()
+                for sft in cx.soft:
+                    cx.solver.add(sft)
+                got = cx.solver.check() == z3.sat
+                if got:
+                    m = cx.solver.model()
+                cx.solver.pop()
+            if got or cx.solver.check() == z3.sat:
+                if not got:
+                    m = cx.solver.model()
                 inputs = self._concretize_inputs(m)
                 detail = "imprecise-path" if cx.imprecise else None
         except Exception as e:  # model extraction must never decide a verdict
@@ -502,6 +512,11 @@ class Verifier:
             raw = p.make(k)
             self._inputs[k] = (p, raw)
             vars_[k] = _untag(raw)
+        for r in contract.requires:
+            t = ops.truth_term(self.eval_expr(r))
+            if t is None:
+                raise OutOfReach("requires clause is not boolean")
+            cx.assume(t)
         for stmt in getattr(contract, "setup", ()):
             self.exec_stmts(stmt, vars_)
         return vars_
@@ -520,11 +535,6 @@ class Verifier:
             if self.interp.truth(self.eval_expr(pred)):
                 self._known_tag = fid
                 break
-        for r in contract.requires:
-            t = ops.truth_term(self.eval_expr(r))
-            if t is None:
-                raise OutOfReach("requires clause is not boolean")
-            cx.assume(t)
         if not cx.path_feasible():
             raise PathAbort()
         ref_vars = clone_value(vars_) if contract.ref else None
@@ -591,8 +601,6 @@ class Verifier:
 
     def _run_lemma_path(self, lem, binding, cx):
         vars_ = self._make_inputs(lem, binding, cx)
-        for r in lem.requires:
-            cx.assume(ops.truth_term(self.eval_expr(r)))
         if not cx.path_feasible():
             raise PathAbort()
         self.entered = True
